@@ -60,7 +60,12 @@ class ProjectResultRegistry(ProjectRegistry):
         list[Path]
             Paths to previous results with name ``base_name``.
         """
-        return sorted(self.directory.glob(f"{base_name}_run_*"))
+        run_name_pattern = re.compile(rf"{re.escape(base_name)}_run_\d{{4}}")
+        return sorted(
+            path
+            for path in self.directory.glob(f"{base_name}_run_*")
+            if run_name_pattern.fullmatch(path.name) is not None
+        )
 
     def _latest_result_path_fallback(self, name: str, *, latest: bool = False) -> Path:
         """Fallback when a user forgets to specify the run to get a result.
